@@ -53,4 +53,80 @@ static int spec_parse_decimal(const uint16_t *s, size_t n, int allow_point, int 
   }
   return 1;
 }
+
+/* ---------------------------------------------------------------------------------------------------------------
+ * base64Binary, XML Schema Part 2 (Second Edition) 3.2.16.1 Lexical representation:
+ *   Base64Binary ::= ((B64S B64S B64S B64S)* ((B64S B64S B64S B64) | (B64S B64S B16S '=') | (B64S B04S '=' #x20? '=')))?
+ *   B64S ::= B64 #x20?     B16S ::= B16 #x20?     B04S ::= B04 #x20?
+ *   B04 ::= [AQgw]     B16 ::= [AEIMQUYcgkosw048]     B64 ::= [A-Za-z0-9+/]
+ * (whiteSpace is collapse, so only single #x20 between characters remain; none leading or trailing).
+ * Value: RFC 2045 6.8 -- 24-bit groups of four 6-bit values, Table 1 alphabet; with one '=' the group carries 16 bits
+ * (the 2 low bits of the third value must be zero = class B16), with '==' 8 bits (4 low bits of the second value zero
+ * = class B04). */
+static int spec_b64_value(unsigned c)      /* RFC 2045 Table 1; -1: not in the alphabet */
+{
+  if (c >= 'A' && c <= 'Z') return (int)(c - 'A');
+  if (c >= 'a' && c <= 'z') return (int)(c - 'a') + 26;
+  if (c >= '0' && c <= '9') return (int)(c - '0') + 52;
+  if (c == '+') return 62;
+  if (c == '/') return 63;
+  return -1;
+}
+static int spec_is_b04(unsigned c) { return c == 'A' || c == 'Q' || c == 'g' || c == 'w'; }
+static int spec_is_b16(unsigned c)
+{
+  return c == 'A' || c == 'E' || c == 'I' || c == 'M' || c == 'Q' || c == 'U' || c == 'Y' || c == 'c' || c == 'g' || c == 'k' ||
+         c == 'o' || c == 's' || c == 'w' || c == '0' || c == '4' || c == '8';
+}
+/* s[0..n): characters (bytes or UTF-16 units).  mode 1: the schema lexical space above; mode 0: RFC 2045 style, any
+ * amount of XML white space anywhere is ignored.  Returns 1 and the octets in out[0..*outlen), the white-space-free
+ * form in can[0..*canlen); 0 if s is not a base64Binary literal.  The empty literal is valid (zero octets). */
+static int spec_base64_decode(const uint16_t *s, size_t n, int mode, uint8_t *out, size_t *outlen, uint16_t *can, size_t *canlen)
+{
+  size_t k = 0, i, q;
+  *outlen = 0; *canlen = 0;
+  for (i = 0; i < n; i++) {
+    unsigned c = s[i];
+    if (mode == 1) {
+      if (c == 0x20) {
+        if (i == 0 || i + 1 == n || s[i + 1] == 0x20) return 0;   /* leading, trailing or doubled #x20 */
+        continue;
+      }
+    } else if (SPEC_IS_XMLWS(c)) continue;
+    can[k++] = (uint16_t)c;
+  }
+  *canlen = k;
+  if (k % 4 != 0) return 0;
+  for (q = 0; q + 4 <= k; q += 4) {
+    unsigned c1 = can[q], c2 = can[q + 1], c3 = can[q + 2], c4 = can[q + 3];
+    int v1 = spec_b64_value(c1), v2 = spec_b64_value(c2), v3 = spec_b64_value(c3), v4 = spec_b64_value(c4);
+    if (v1 < 0 || v2 < 0) return 0;
+    if (q + 4 < k) {                                   /* not the last group: four B64 */
+      if (v3 < 0 || v4 < 0) return 0;
+    }
+    if (v3 >= 0 && v4 >= 0) {                          /* B64 B64 B64 B64 */
+      out[(*outlen)++] = (uint8_t)((v1 << 2) | (v2 >> 4));
+      out[(*outlen)++] = (uint8_t)(((v2 & 0xF) << 4) | (v3 >> 2));
+      out[(*outlen)++] = (uint8_t)(((v3 & 0x3) << 6) | v4);
+    } else if (v3 >= 0 && c4 == '=') {                 /* B64 B64 B16 '=' */
+      if (!spec_is_b16(c3)) return 0;
+      out[(*outlen)++] = (uint8_t)((v1 << 2) | (v2 >> 4));
+      out[(*outlen)++] = (uint8_t)(((v2 & 0xF) << 4) | (v3 >> 2));
+    } else if (c3 == '=' && c4 == '=') {               /* B64 B04 '=' '=' */
+      if (!spec_is_b04(c2)) return 0;
+      out[(*outlen)++] = (uint8_t)((v1 << 2) | (v2 >> 4));
+    } else return 0;
+  }
+  return 1;
+}
+
+/* hexBinary, 3.2.15.1: "each binary octet is encoded as a character tuple, consisting of two hexadecimal digits
+ * ([0-9a-fA-F])"; canonical form (3.2.15.2): lower case hexadecimal digits prohibited */
+static int spec_hex_value(unsigned c)
+{
+  if (c >= '0' && c <= '9') return (int)(c - '0');
+  if (c >= 'A' && c <= 'F') return (int)(c - 'A') + 10;
+  if (c >= 'a' && c <= 'f') return (int)(c - 'a') + 10;
+  return -1;
+}
 #endif
